@@ -248,24 +248,6 @@ theorem parseStringLoop_spec (cfg : Cfg) (ok : CfgOk cfg) (h : Handler) (R : Byt
           simp] at this
         exact this
 
-/-- any memory with a NUL at or behind index 0 is a NUL-free string, its terminator and a rest -/
-theorem hasNul_split (text : Bytes) (h : ∃ n : Nat, text[n]? = some 0) : ∃ s R, text = s ++ 0 :: R ∧ 0 ∉ s := by
-  obtain ⟨n, hn⟩ := h
-  induction text generalizing n with
-  | nil => simp at hn
-  | cons c t ih =>
-    by_cases hc : c = 0
-    · exact ⟨[], t, by simp [hc], by simp⟩
-    · cases n with
-      | zero => simp at hn; exact absurd hn hc
-      | succ n =>
-        obtain ⟨s, R, hs, hz⟩ := ih n (by simpa using hn)
-        refine ⟨c :: s, R, by simp [hs], ?_⟩
-        intro hm
-        rcases List.mem_cons.mp hm with e | hm
-        · exact hc e.symm
-        · exact hz hm
-
 theorem parseFills_spec (cfg : Cfg) (ok : CfgOk cfg) (h : Handler) (junk : Bytes) (fills : List Bytes)
     (hj : junk.length = cfg.maxLine) (hf : ∀ f ∈ fills, f.length < cfg.readerNum) :
     parseFills cfg h junk fills =
@@ -284,5 +266,40 @@ theorem parseString_spec (cfg : Cfg) (ok : CfgOk cfg) (h : Handler) (junk s R : 
     (by omega) hz
   simp only [List.nil_append, List.length_nil] at hs
   unfold parseString; rw [hse]; simp only []; rw [hs]; simp only [hr.error, hr.events]
+
+theorem takeLine_line (n : Nat) (l rest : Bytes) (hnl : 10 ∉ l) (hlen : l.length + 1 ≤ n) :
+    takeLine n (l ++ [10] ++ rest) = l ++ [10] := by
+  induction l generalizing n with
+  | nil =>
+    obtain ⟨m, rfl⟩ : ∃ m, n = m + 1 := ⟨n - 1, by simp at hlen; omega⟩
+    simp [takeLine]
+  | cons c t ih =>
+    obtain ⟨m, rfl⟩ : ∃ m, n = m + 1 := ⟨n - 1, by simp at hlen; omega⟩
+    have hc : c ≠ 10 := fun e => hnl (by simp [e])
+    have ht : 10 ∉ t := fun e => hnl (by simp [e])
+    simp only [List.cons_append, takeLine, if_neg hc]
+    congr 1
+    exact ih m ht (by simp at hlen; omega)
+
+/-- lines that fit are delivered one by one -/
+theorem chunks_lines (num : Nat) (ls : List Bytes) (hnl : ∀ l ∈ ls, 10 ∉ l) (hlen : ∀ l ∈ ls, l.length + 2 ≤ num) :
+    chunks num (ls.flatMap (· ++ [10])) = ls.map (· ++ [10]) := by
+  induction ls with
+  | nil => simp only [List.flatMap_nil, List.map_nil]; exact chunks_nil _ _ (Or.inl rfl)
+  | cons l ls ih =>
+    have h2 := hlen l (by simp)
+    have hne : ¬ ((l :: ls).flatMap (· ++ [10]) = [] ∨ num < 2) := by
+      intro h; rcases h with h | h
+      · simp at h
+      · omega
+    rw [chunks_cons _ _ hne]
+    have htl : takeLine (num - 1) ((l :: ls).flatMap (· ++ [10])) = l ++ [10] := by
+      simp only [List.flatMap_cons]
+      exact takeLine_line (num - 1) l _ (hnl l (by simp)) (by omega)
+    rw [htl]
+    simp only [List.flatMap_cons, List.map_cons]
+    congr 1
+    rw [List.drop_left]
+    exact ih (fun l' h' => hnl l' (by simp [h'])) (fun l' h' => hlen l' (by simp [h']))
 
 end IwModel.Ini
